@@ -342,13 +342,32 @@ class CopyApi:
         return self._conv(self.a[("iban_info", text)])
 
 
+LOOKUP_OVERLAY = {
+    # countries an overlay adds, whose bank-identifying key is made of fields that are not adjacent / not in position order
+    "ZZ": {"country": "ZZ", "in_sepa_zone": False, "bban_spec": "4!n2!n4!n8!n", "bban_length": 18, "iban_spec": "ZZ2!n4!n2!n4!n8!n",
+           "iban_length": 22, "positions": {"bank_code": [0, 4], "account_type": [4, 6], "branch_code": [6, 10], "account_code": [10, 18]},
+           "bic_lookup_components": ["bank_code", "branch_code"]},
+    "ZY": {"country": "ZY", "in_sepa_zone": False, "bban_spec": "3!n5!n8!n", "bban_length": 16, "iban_spec": "ZY2!n3!n5!n8!n",
+           "iban_length": 20, "positions": {"branch_code": [0, 3], "bank_code": [3, 8], "account_code": [8, 16]},
+           "bic_lookup_components": ["bank_code", "branch_code"]},
+}
+SHAPES_OVERLAY = {"ZZ": ["12345678", "11112222"], "ZY": ["12345678", "00001999"]}
+
+
 def run_config(rec: Rec, files, where, rng=None):
     import random
+    from .. import gens as gens_mod
     from ..engines.pkgcopy import PackageCopy
-    from ..oracles.core import repo_root
+    from ..oracles.core import load_table, repo_root
     rng = rng or random.Random(0)
-    o, g = oracle(), gen()
-    with PackageCopy(repo_root(), bank_files=files) as pc:
+    # rows for the overlay countries (their BICs borrow DE/FR country codes: ZZ and ZY are not ISO countries)
+    files = dict(files)
+    files["zzoverlaybanks.json"] = [
+        {"country_code": cc, "bank_code": code, "bic": bic, "name": f"{cc}{code}", "short_name": cc, "primary": True}
+        for cc, codes in SHAPES_OVERLAY.items() for code, bic in zip(codes, ("AAAADEFF", "BBBBFRPPXXX"))]
+    with PackageCopy(repo_root(), bank_files=files, iban_files={"zz_lookup.json": LOOKUP_OVERLAY}) as pc:
+        o = IbanOracle(load_table(pc.iban_dir))
+        g = gens_mod.Gen(o)
         banks = oreg.load_banks(pc.bank_dir)
         idx, by_bic = oreg.index_by_code(banks), oreg.index_by_bic(banks)
         keys = sorted(idx)
